@@ -187,7 +187,8 @@ theorem wake_own {g : Graph} {lim : Option Nat} {s s' : St} {l : Label} (h : Ste
   | wExit _ => exact wake_mono id (getSched_congr rfl rfl rfl w) hW
   | cRecvLast _ _ _ _ => exact absurd rfl hcr
   | cRecvMore _ _ _ _ => exact absurd rfl hcr
-  | cCtxDone _ _ _ => exact absurd rfl hcd
+  | cCtxDone _ _ _ _ => exact absurd rfl hcd
+  | extCancel _ => exact wake_mono id (getSched_congr rfl rfl rfl w) hW
 
 /-! ### frame facts -/
 
@@ -296,6 +297,7 @@ theorem step_schedVerts {g : Graph} {lim : Option Nat} {s s' : St} {l : Label} (
   | wDone _ => exact hsv w' x (by rw [← hx]; exact (getSched_congr rfl rfl rfl w').symm)
   | wSend _ => exact hsv w' x (by rw [← hx]; exact (getSched_congr rfl rfl rfl w').symm)
   | wExit _ => exact hsv w' x (by rw [← hx]; exact (getSched_congr rfl rfl rfl w').symm)
+  | extCancel _ => exact hsv w' x (by rw [← hx]; exact (getSched_congr rfl rfl rfl w').symm)
   | cRecvLast _ _ _ _ =>
     cases w' with
     | M => exact hsv .M x hx
@@ -308,7 +310,7 @@ theorem step_schedVerts {g : Graph} {lim : Option Nat} {s s' : St} {l : Label} (
       subst hx
       have hv : v ∈ g.verts := hrs v (.inl (by rw [hch]; exact List.mem_cons_self ..))
       exact ⟨fun u hu => hg.post_mem v hv u hu, by intro u hu; simp at hu⟩
-  | cCtxDone _ _ _ =>
+  | cCtxDone _ _ _ _ =>
     cases w' with
     | M => exact hsv .M x hx
     | C => simp [getSched] at hx
@@ -371,7 +373,7 @@ theorem invB_step {g : Graph} {lim : Option Nat} {s s' : St} {l : Label} (hg : G
     · by_cases hl2 : l = .cCtxDone
       · subst hl2
         cases h with
-        | cCtxDone _ _ _ => simp at ha
+        | cCtxDone _ _ _ _ => simp at ha
       · rw [step_received h hl] at hall
         refine wake_own h .C u ?_ hl hl2 (hB.wakeC hcan0 ha0 u hu hpre hall)
         intro todo _ d hd
